@@ -69,7 +69,10 @@ func VerifC03Report() {
 	rc := c.ReportConfiguration{IncludeReportCreationTime: includeTime, ReportSchemaIri: v.Bytes("reportSchemaIri", 1), LexicalSchemaIri: v.Bytes("lexicalSchemaIri", 1)}
 	// the configured instant in UTC, east and west of it (an offset with minutes included)
 	zones := []*time.Location{time.UTC, time.FixedZone("", 2*3600), time.FixedZone("", -(3*3600 + 1800))}
-	clock := verifClock{time.Date(2000+v.Choice("year", 2), time.November, 28, 1, 2, 3, 0, zones[v.Choice("zone", len(zones))])}
+	// ... with or without a sub-second part (the report's text has seconds: it still denotes the second
+	// the instant lies in), at the end of a year
+	nanos := []int{0, 250000000, 750000000, 999999999}[v.Choice("nanos", 4)]
+	clock := verifClock{time.Date(2000+v.Choice("year", 2), time.December, 31, 23, 59, 59, nanos, zones[v.Choice("zone", len(zones))])}
 	text, err := BuildReport(&rs, clock, rc)
 	v.Assert("C03.no-error", err == nil && text != "")
 	v.Reach("encoded")
@@ -103,7 +106,7 @@ func VerifC03Report() {
 		// the text is an xsd:dateTime (RFC 3339) that denotes the configured instant
 		ds, isStr := date.(string)
 		parsed, perr := time.Parse(time.RFC3339, ds)
-		v.Assert("C03.dateCreated", hasDate && isStr && perr == nil && parsed.Equal(clock.t))
+		v.Assert("C03.dateCreated", hasDate && isStr && perr == nil && parsed.Equal(clock.t.Truncate(time.Second)))
 	} else {
 		v.Reach("without-date")
 		v.Assert("C03.dateCreated", !hasDate)
